@@ -1,10 +1,16 @@
 package main
 
 import (
+	"fmt"
 	"go/token"
+	"go/types"
+	"strings"
 
 	"golang.org/x/tools/go/ssa"
 )
+
+// Library models: assumed contracts of standard-library functions, written
+// natively. Each one used by a check is listed in that check's evidence.
 
 type libFn func(fc *FnCtx, cc *ssa.CallCommon, args []Value, pos token.Pos, res ssa.Value) Value
 
@@ -23,7 +29,525 @@ func pureEff() effects {
 func allocEff() effects {
 	e := pureEff()
 	e.allocs = true
+	for _, hs := range heapSorts {
+		e.sorts[hs] = true
+	}
 	return e
 }
 
-func (e *Engine) extraPrelude() string { return "" }
+func bufEff() effects {
+	e := pureEff()
+	e.sorts[SInt] = true
+	e.allocs = true
+	for _, hs := range heapSorts {
+		e.sorts[hs] = true
+	}
+	return e
+}
+
+func (e *Engine) extraPrelude() string {
+	var sb strings.Builder
+	sb.WriteString("(declare-fun isNotExist (Int Int) Bool)\n(assert (not (isNotExist 0 0)))\n")
+	sb.WriteString("(declare-fun p_ext (Str) Str)\n(declare-fun p_clean (Str) Str)\n(declare-fun p_isabs (Str) Bool)\n")
+	sb.WriteString("(declare-fun fp_dir (Str) Str)\n(declare-fun fp_base (Str) Str)\n(declare-fun fp_join (Str Str) Str)\n(declare-fun fp_abs (Str) Str)\n(declare-fun fp_rel (Str Str) Str)\n(declare-fun fp_relok (Str Str) Bool)\n(declare-fun fp_isabs (Str) Bool)\n(declare-fun s_lower (Str) Str)\n")
+	sb.WriteString("(assert (forall ((s Str)) (! (and (<= 0 (s_len (p_ext s))) (<= (s_len (p_ext s)) (s_len s)) (= (p_ext s) (s_sub s (- (s_len s) (s_len (p_ext s))) (s_len s)))) :pattern ((p_ext s)))))\n")
+	sb.WriteString("(assert (forall ((s Str)) (! (>= (s_len (p_clean s)) 1) :pattern ((p_clean s)))))\n")
+	sb.WriteString("(assert (forall ((s Str)) (! (>= (s_len s) 0) :pattern ((s_len s)))))\n")
+	sb.WriteString("(assert (forall ((a Str) (b Str)) (! (= (s_len (s_cat a b)) (+ (s_len a) (s_len b))) :pattern ((s_cat a b)))))\n")
+	return sb.String()
+}
+
+func retTuple(vs ...Value) Value { return Value{K: KTuple, E: vs} }
+
+func (fc *FnCtx) freshErr(name string) Value {
+	v := IfaceV(fc.freshConst(name+".typ", SInt), fc.freshConst(name+".val", SInt))
+	fc.assume(Ge(v.E[0].T, IntLit(0)))
+	fc.assume(Implies(Eq(v.E[0].T, IntLit(0)), Eq(v.E[1].T, IntLit(0))))
+	return v
+}
+
+func nilErr() Value { return IfaceV(IntLit(0), IntLit(0)) }
+
+func (fc *FnCtx) nonNilErr(name string) Value {
+	v := fc.freshErr(name)
+	fc.assume(Not(Eq(v.E[0].T, IntLit(0))))
+	return v
+}
+
+func (fc *FnCtx) freshStr(name string) Value {
+	s := fc.freshConst(name, SStr)
+	fc.assume(Ge(strLen(s), IntLit(0)))
+	return Leaf(s)
+}
+
+func (fc *FnCtx) intRes(t Term) Value { return Leaf(fc.fromIndex(t, types.Typ[types.Int])) }
+
+// newObject allocates a fresh zeroed object id.
+func (fc *FnCtx) newObject(name string) Term {
+	st := fc.cur
+	obj := fc.define(fc.freshName("obj_"+name), st.next)
+	st.next = fc.define(fc.freshName("next"), Add(st.next, IntLit(1)))
+	fc.zeroObject(st, obj)
+	fc.commitHeaps()
+	return obj
+}
+
+// freshBytes allocates a byte slice of the given length with unknown contents.
+func (fc *FnCtx) freshBytes(name string, ln Term) Value {
+	st := fc.cur
+	obj := fc.define(fc.freshName("obj_"+name), st.next)
+	st.next = fc.define(fc.freshName("next"), Add(st.next, IntLit(1)))
+	st.heap[SBV(8)] = Store(st.heap[SBV(8)], obj, fc.freshConst(name+"_bytes", SArr(SInt, SBV(8))))
+	fc.commitHeaps()
+	cp := fc.freshConst(name+"_cap", SInt)
+	fc.assume(And(Ge(cp, ln), Le(cp, Term{"maxSliceCap", SInt})))
+	return SliceV(obj, IntLit(0), ln, cp)
+}
+
+// bytes.Buffer layout: buf []byte at cells 0..3, off int at cell 4.
+type bufView struct {
+	obj, base           Term
+	bobj, boff, blen, bcap, off Term
+}
+
+func (fc *FnCtx) bufOf(p Value) bufView {
+	st := fc.cur
+	b := bufView{obj: p.Obj(), base: p.Off()}
+	b.bobj = st.cellRead(SInt, b.obj, b.base)
+	b.boff = st.cellRead(SInt, b.obj, offPlus(b.base, 1))
+	b.blen = st.cellRead(SInt, b.obj, offPlus(b.base, 2))
+	b.bcap = st.cellRead(SInt, b.obj, offPlus(b.base, 3))
+	b.off = st.cellRead(SInt, b.obj, offPlus(b.base, 4))
+	return b
+}
+
+func (b bufView) remaining() Term { return Sub(b.blen, b.off) }
+
+func (fc *FnCtx) bufSetOff(b bufView, off Term) {
+	fc.cur.cellWrite(SInt, b.obj, offPlus(b.base, 4), off)
+	fc.commitHeaps()
+}
+
+// bufInvariant: 0 <= off <= len <= cap (representation invariant of bytes.Buffer).
+func (fc *FnCtx) bufInvariant(b bufView) {
+	fc.assume(And(Le(IntLit(0), b.off), Le(b.off, b.blen), Le(b.blen, b.bcap), Ge(b.boff, IntLit(0)), Le(b.bcap, Term{"maxSliceCap", SInt}), Lt(b.bobj, fc.cur.next)))
+}
+
+// readerBuffer resolves an io.Reader/io.Writer argument to a *bytes.Buffer pointer.
+func (fc *FnCtx) readerBuffer(v ssa.Value) (Value, bool) {
+	src, ok := fc.ifaceSrc[v]
+	if !ok {
+		return Value{}, false
+	}
+	if pt, ok := src.Type().(*types.Pointer); ok {
+		if n, ok := pt.Elem().(*types.Named); ok && n.Obj().Name() == "Buffer" && n.Obj().Pkg().Path() == "bytes" {
+			return fc.val(src), true
+		}
+	}
+	return Value{}, false
+}
+
+func packedSize(t types.Type) int64 {
+	switch u := t.Underlying().(type) {
+	case *types.Struct:
+		var n int64
+		for i := 0; i < u.NumFields(); i++ {
+			n += packedSize(u.Field(i).Type())
+		}
+		return n
+	case *types.Array:
+		return u.Len() * packedSize(u.Elem())
+	case *types.Basic:
+		if bits, _, ok := basicIntInfo(u); ok {
+			return int64(bits / 8)
+		}
+		if u.Kind() == types.Bool {
+			return 1
+		}
+	}
+	return -1
+}
+
+func init() {
+	reg := func(name string, eff effects, fn libFn) { libModels[name] = libModel{eff, fn} }
+
+	reg("bytes.NewBuffer", allocEff(), func(fc *FnCtx, cc *ssa.CallCommon, args []Value, pos token.Pos, res ssa.Value) Value {
+		obj := fc.newObject("buffer")
+		s := args[0]
+		st := fc.cur
+		for i := 0; i < 4; i++ {
+			st.cellWrite(SInt, obj, IntLit(int64(i)), s.E[i].T)
+		}
+		st.cellWrite(SInt, obj, IntLit(4), IntLit(0))
+		fc.commitHeaps()
+		return PtrV(obj, IntLit(0))
+	})
+	reg("(*bytes.Buffer).Len", pureEff(), func(fc *FnCtx, cc *ssa.CallCommon, args []Value, pos token.Pos, res ssa.Value) Value {
+		fc.nilCheck(args[0], pos, "Buffer.Len")
+		b := fc.bufOf(args[0])
+		fc.bufInvariant(b)
+		return fc.intRes(b.remaining())
+	})
+	reg("(*bytes.Buffer).Next", bufEff(), func(fc *FnCtx, cc *ssa.CallCommon, args []Value, pos token.Pos, res ssa.Value) Value {
+		fc.nilCheck(args[0], pos, "Buffer.Next")
+		b := fc.bufOf(args[0])
+		fc.bufInvariant(b)
+		n := fc.toIndex(args[1].T, types.Typ[types.Int])
+		fc.oblige("pre", "bytes.Buffer.Next: n >= 0 ("+fc.desc(pos, "Next")+")", pos, Ge(n, IntLit(0)))
+		m := b.remaining()
+		k := fc.define(fc.freshName("nextn"), Ite(Gt(n, m), m, n))
+		fc.bufSetOff(b, Add(b.off, k))
+		return SliceV(b.bobj, Add(b.boff, b.off), k, Sub(b.bcap, b.off))
+	})
+	reg("(*bytes.Buffer).Bytes", pureEff(), func(fc *FnCtx, cc *ssa.CallCommon, args []Value, pos token.Pos, res ssa.Value) Value {
+		fc.nilCheck(args[0], pos, "Buffer.Bytes")
+		b := fc.bufOf(args[0])
+		fc.bufInvariant(b)
+		return SliceV(b.bobj, Add(b.boff, b.off), b.remaining(), Sub(b.bcap, b.off))
+	})
+	reg("(*bytes.Buffer).String", pureEff(), func(fc *FnCtx, cc *ssa.CallCommon, args []Value, pos token.Pos, res ssa.Value) Value {
+		b := fc.bufOf(args[0])
+		fc.bufInvariant(b)
+		s := mk(SStr, "s_frombytes", Select(fc.cur.heap[SBV(8)], b.bobj), Add(b.boff, b.off), b.remaining())
+		fc.assume(Eq(strLen(s), b.remaining()))
+		return Leaf(s)
+	})
+	bufWrite := func(fc *FnCtx, p Value, n Term, src *Value) {
+		// buf = append(buf, n bytes): new backing array (conservatively always fresh), contents:
+		// old bytes preserved, appended bytes = src (or unknown)
+		st := fc.cur
+		b := fc.bufOf(p)
+		fc.bufInvariant(b)
+		obj := fc.define(fc.freshName("obj_bufgrow"), st.next)
+		st.next = fc.define(fc.freshName("next"), Add(st.next, IntLit(1)))
+		inner := fc.freshConst("bufbytes", SArr(SInt, SBV(8)))
+		h := st.heap[SBV(8)]
+		k := Term{"k!q", SInt}
+		a1 := Implies(And(Le(IntLit(0), k), Lt(k, b.blen)), Eq(Select(inner, k), Select(Select(h, b.bobj), Add(b.boff, k))))
+		fc.assume(Term{fmt.Sprintf("(forall ((k!q Int)) %s)", a1.S), SBool})
+		if src != nil && src.K == KSlice {
+			a2 := Implies(And(Le(IntLit(0), k), Lt(k, n)), Eq(Select(inner, Add(b.blen, k)), Select(Select(h, src.Obj()), Add(src.Off(), k))))
+			fc.assume(Term{fmt.Sprintf("(forall ((k!q Int)) %s)", a2.S), SBool})
+		}
+		st.heap[SBV(8)] = Store(h, obj, inner)
+		newLen := Add(b.blen, n)
+		cp := fc.freshConst("bufcap", SInt)
+		fc.assume(And(Ge(cp, newLen), Le(cp, Term{"maxSliceCap", SInt})))
+		st.cellWrite(SInt, b.obj, b.base, obj)
+		st.cellWrite(SInt, b.obj, offPlus(b.base, 1), IntLit(0))
+		st.cellWrite(SInt, b.obj, offPlus(b.base, 2), newLen)
+		st.cellWrite(SInt, b.obj, offPlus(b.base, 3), cp)
+		fc.commitHeaps()
+	}
+	reg("(*bytes.Buffer).Write", bufEff(), func(fc *FnCtx, cc *ssa.CallCommon, args []Value, pos token.Pos, res ssa.Value) Value {
+		fc.nilCheck(args[0], pos, "Buffer.Write")
+		bufWrite(fc, args[0], args[1].Len(), &args[1])
+		return retTuple(fc.intRes(args[1].Len()), nilErr())
+	})
+	reg("encoding/binary.Read", bufEff(), func(fc *FnCtx, cc *ssa.CallCommon, args []Value, pos token.Pos, res ssa.Value) Value {
+		st := fc.cur
+		target := fc.ifaceSrc[cc.Args[2]]
+		var size Term
+		havocTarget := func() {}
+		if target != nil {
+			tv := fc.val(target)
+			switch tt := target.Type().Underlying().(type) {
+			case *types.Pointer:
+				if ps := packedSize(tt.Elem()); ps >= 0 && tv.K == KPtr {
+					size = IntLit(ps)
+					havocTarget = func() {
+						nv := fc.freshValue("binread", shapeOf(tt.Elem(), fc.mode))
+						for _, f := range fc.typeFacts(tt.Elem(), nv, st.next) {
+							fc.assume(f)
+						}
+						fc.store(st, tt.Elem(), tv.Obj(), tv.Off(), nv)
+						fc.commitHeaps()
+					}
+				}
+			case *types.Slice:
+				if ps := packedSize(tt.Elem()); ps >= 0 && tv.K == KSlice {
+					size = Mul(tv.Len(), IntLit(ps))
+					havocTarget = func() {
+						for _, hs := range heapSorts {
+							sorts := map[Sort]bool{}
+							fc.sortsOfType(tt.Elem(), sorts)
+							if sorts[hs] {
+								st.heap[hs] = Store(st.heap[hs], tv.Obj(), fc.freshConst("binreadarr", SArr(SInt, hs)))
+							}
+						}
+						fc.commitHeaps()
+					}
+				}
+			}
+		}
+		bp, isBuf := fc.readerBuffer(cc.Args[0])
+		if size.IsZero() || !isBuf {
+			fc.notes = append(fc.notes, "binary.Read with unmodelled reader/target: full havoc")
+			fc.havocAll("binary.Read")
+			return fc.freshErr("binreaderr")
+		}
+		b := fc.bufOf(bp)
+		fc.bufInvariant(b)
+		ok := fc.define(fc.freshName("binreadok"), Ge(b.remaining(), size))
+		err := fc.freshErr("binreaderr")
+		fc.assume(Eq(Eq(err.E[0].T, IntLit(0)), ok))
+		fc.bufSetOff(b, Ite(ok, Add(b.off, size), b.blen))
+		havocTarget()
+		return err
+	})
+	reg("encoding/binary.Write", bufEff(), func(fc *FnCtx, cc *ssa.CallCommon, args []Value, pos token.Pos, res ssa.Value) Value {
+		target := fc.ifaceSrc[cc.Args[2]]
+		var size Term
+		if target != nil {
+			tv := fc.val(target)
+			switch tt := target.Type().Underlying().(type) {
+			case *types.Slice:
+				if ps := packedSize(tt.Elem()); ps >= 0 && tv.K == KSlice {
+					size = Mul(tv.Len(), IntLit(ps))
+				}
+			default:
+				if ps := packedSize(target.Type()); ps >= 0 {
+					size = IntLit(ps)
+				}
+			}
+		}
+		bp, isBuf := fc.readerBuffer(cc.Args[0])
+		if size.IsZero() || !isBuf {
+			fc.notes = append(fc.notes, "binary.Write with unmodelled writer/data: full havoc")
+			fc.havocAll("binary.Write")
+			return fc.freshErr("binwriteerr")
+		}
+		// fixed-size data into a bytes.Buffer never fails
+		var src *Value
+		if target != nil {
+			if tv := fc.val(target); tv.K == KSlice && isByteSlice(target.Type().Underlying()) {
+				src = &tv
+			}
+		}
+		bufWrite(fc, bp, size, src)
+		return nilErr()
+	})
+	le := func(name string, nbytes int, put bool) {
+		full := "(encoding/binary.littleEndian)." + name
+		reg(full, func() effects {
+			if put {
+				e := pureEff()
+				e.sorts[SBV(8)] = true
+				return e
+			}
+			return pureEff()
+		}(), func(fc *FnCtx, cc *ssa.CallCommon, args []Value, pos token.Pos, res ssa.Value) Value {
+			b := args[1]
+			fc.oblige("bounds", "binary.LittleEndian."+name+": len(b) >= "+fmt.Sprint(nbytes)+" ("+fc.desc(pos, name)+")", pos, Ge(b.Len(), IntLit(int64(nbytes))))
+			st := fc.cur
+			if put {
+				v := args[2].T
+				w := nbytes * 8
+				if v.Sort == SInt {
+					v = int2bv(v, w)
+				}
+				for i := 0; i < nbytes; i++ {
+					st.cellWrite(SBV(8), b.Obj(), offPlus(b.Off(), int64(i)), extract(v, 8*i+7, 8*i))
+				}
+				fc.commitHeaps()
+				return Value{K: KTuple}
+			}
+			var parts []Term
+			for i := nbytes - 1; i >= 0; i-- {
+				parts = append(parts, st.cellRead(SBV(8), b.Obj(), offPlus(b.Off(), int64(i))))
+			}
+			r := mk(SBV(nbytes*8), "concat", parts...)
+			if intSort(nbytes*8, fc.mode) == SInt {
+				return Leaf(ubv2int(r))
+			}
+			return Leaf(r)
+		})
+	}
+	le("Uint16", 2, false)
+	le("Uint32", 4, false)
+	le("Uint64", 8, false)
+	le("PutUint16", 2, true)
+	le("PutUint32", 4, true)
+	le("PutUint64", 8, true)
+
+	reg("crypto/md5.Sum", pureEff(), func(fc *FnCtx, cc *ssa.CallCommon, args []Value, pos token.Pos, res ssa.Value) Value {
+		return Leaf(mk(SBV(128), "md5", bytesOf(fc.cur, args[0])))
+	})
+	reg("hash/crc32.ChecksumIEEE", pureEff(), func(fc *FnCtx, cc *ssa.CallCommon, args []Value, pos token.Pos, res ssa.Value) Value {
+		return Leaf(mk(SBV(32), "crc32", bytesOf(fc.cur, args[0])))
+	})
+	reg("errors.New", allocEff(), func(fc *FnCtx, cc *ssa.CallCommon, args []Value, pos token.Pos, res ssa.Value) Value {
+		obj := fc.newObject("err")
+		return IfaceV(IntLit(fc.eng.typeIDByName("*errors.errorString")), mk(SInt, "box_ptr", obj, IntLit(0)))
+	})
+	reg("fmt.Errorf", allocEff(), func(fc *FnCtx, cc *ssa.CallCommon, args []Value, pos token.Pos, res ssa.Value) Value {
+		obj := fc.newObject("err")
+		return IfaceV(IntLit(fc.eng.typeIDByName("*fmt.wrapError")), mk(SInt, "box_ptr", obj, IntLit(0)))
+	})
+	reg("fmt.Sprintf", pureEff(), func(fc *FnCtx, cc *ssa.CallCommon, args []Value, pos token.Pos, res ssa.Value) Value {
+		return fc.freshStr("sprintf")
+	})
+	for _, n := range []string{"fmt.Printf", "fmt.Println", "fmt.Print"} {
+		reg(n, pureEff(), func(fc *FnCtx, cc *ssa.CallCommon, args []Value, pos token.Pos, res ssa.Value) Value {
+			return retTuple(Leaf(fc.freshConst("printn", intSort(64, fc.mode))), fc.freshErr("printerr"))
+		})
+	}
+	reg("reflect.TypeOf", pureEff(), func(fc *FnCtx, cc *ssa.CallCommon, args []Value, pos token.Pos, res ssa.Value) Value {
+		src := fc.ifaceSrc[cc.Args[0]]
+		if src == nil {
+			return IfaceV(IntLit(fc.eng.typeIDByName("*reflect.rtype")), fc.freshConst("rtype", SInt))
+		}
+		return IfaceV(IntLit(fc.eng.typeIDByName("*reflect.rtype")), IntLit(fc.eng.sizeofType(src.Type())))
+	})
+	libIfaceModels["Type.Size"] = func(fc *FnCtx, cc *ssa.CallCommon, args []Value, pos token.Pos, res ssa.Value) Value {
+		fc.usedAssumed["lib:reflect.Type.Size == unsafe.Sizeof (gc/amd64 layout)"] = true
+		return Leaf(fc.fromIndex(args[0].E[1].T, types.Typ[types.Uintptr]))
+	}
+	reg("reflect.DeepEqual", pureEff(), func(fc *FnCtx, cc *ssa.CallCommon, args []Value, pos token.Pos, res ssa.Value) Value {
+		return Leaf(fc.freshConst("deepeq", SBool))
+	})
+	reg("os.IsNotExist", pureEff(), func(fc *FnCtx, cc *ssa.CallCommon, args []Value, pos token.Pos, res ssa.Value) Value {
+		return Leaf(mk(SBool, "isNotExist", args[0].E[0].T, args[0].E[1].T))
+	})
+	// path / filepath: lexical functions, uninterpreted with the consequences gopar relies on
+	str1 := func(name, fnName string) {
+		reg(name, pureEff(), func(fc *FnCtx, cc *ssa.CallCommon, args []Value, pos token.Pos, res ssa.Value) Value {
+			return Leaf(mk(SStr, fnName, args[0].T))
+		})
+	}
+	str1("path.Ext", "p_ext")
+	str1("path/filepath.Ext", "p_ext")
+	str1("path.Clean", "p_clean")
+	str1("path/filepath.Clean", "p_clean")
+	str1("path/filepath.Dir", "fp_dir")
+	str1("path.Dir", "fp_dir")
+	str1("path/filepath.Base", "fp_base")
+	str1("path.Base", "fp_base")
+	str1("strings.ToLower", "s_lower")
+	reg("path.IsAbs", pureEff(), func(fc *FnCtx, cc *ssa.CallCommon, args []Value, pos token.Pos, res ssa.Value) Value {
+		return Leaf(mk(SBool, "p_isabs", args[0].T))
+	})
+	reg("path/filepath.IsAbs", pureEff(), func(fc *FnCtx, cc *ssa.CallCommon, args []Value, pos token.Pos, res ssa.Value) Value {
+		return Leaf(mk(SBool, "fp_isabs", args[0].T))
+	})
+	reg("path/filepath.Join", pureEff(), func(fc *FnCtx, cc *ssa.CallCommon, args []Value, pos token.Pos, res ssa.Value) Value {
+		// variadic: elements are packed into a slice; model the common 2-element case through the heap
+		s := args[0]
+		if s.K == KSlice {
+			a := fc.cur.cellRead(SStr, s.Obj(), s.Off())
+			b := fc.cur.cellRead(SStr, s.Obj(), offPlus(s.Off(), 1))
+			r := mk(SStr, "fp_join", a, b)
+			return Leaf(Ite(Eq(s.Len(), IntLit(2)), r, fc.freshStr("join").T))
+		}
+		return fc.freshStr("join")
+	})
+	reg("path/filepath.Abs", pureEff(), func(fc *FnCtx, cc *ssa.CallCommon, args []Value, pos token.Pos, res ssa.Value) Value {
+		return retTuple(Leaf(mk(SStr, "fp_abs", args[0].T)), fc.freshErr("abserr"))
+	})
+	reg("path/filepath.Rel", pureEff(), func(fc *FnCtx, cc *ssa.CallCommon, args []Value, pos token.Pos, res ssa.Value) Value {
+		r := mk(SStr, "fp_rel", args[0].T, args[1].T)
+		err := fc.freshErr("relerr")
+		fc.assume(Eq(Eq(err.E[0].T, IntLit(0)), mk(SBool, "fp_relok", args[0].T, args[1].T)))
+		// Rel returns a Clean()ed, hence non-empty, path on success
+		fc.assume(Implies(Eq(err.E[0].T, IntLit(0)), Ge(strLen(r), IntLit(1))))
+		return retTuple(Leaf(r), err)
+	})
+	reg("io/ioutil.ReadAll", bufEff(), func(fc *FnCtx, cc *ssa.CallCommon, args []Value, pos token.Pos, res ssa.Value) Value {
+		bp, isBuf := fc.readerBuffer(cc.Args[0])
+		if !isBuf {
+			fc.havocAll("ReadAll")
+			return fc.freshResult(cc.Signature().Results())
+		}
+		b := fc.bufOf(bp)
+		fc.bufInvariant(b)
+		n := fc.define(fc.freshName("readall"), b.remaining())
+		out := fc.freshBytes("readall", n)
+		fc.bufSetOff(b, b.blen)
+		return retTuple(out, nilErr())
+	})
+	reg("unicode/utf8.EncodeRune", func() effects { e := pureEff(); e.sorts[SBV(8)] = true; return e }(), func(fc *FnCtx, cc *ssa.CallCommon, args []Value, pos token.Pos, res ssa.Value) Value {
+		p := args[0]
+		fc.oblige("bounds", "utf8.EncodeRune: len(p) >= 4 ("+fc.desc(pos, "EncodeRune")+")", pos, Ge(p.Len(), IntLit(4)))
+		st := fc.cur
+		inner := fc.freshConst("runebytes", SArr(SInt, SBV(8)))
+		h := st.heap[SBV(8)]
+		k := Term{"k!q", SInt}
+		a := Implies(Or(Lt(k, p.Off()), Ge(k, Add(p.Off(), IntLit(4)))), Eq(Select(inner, k), Select(Select(h, p.Obj()), k)))
+		fc.assume(Term{fmt.Sprintf("(forall ((k!q Int)) %s)", a.S), SBool})
+		st.heap[SBV(8)] = Store(h, p.Obj(), inner)
+		fc.commitHeaps()
+		n := fc.freshConst("runelen", SInt)
+		fc.assume(And(Le(IntLit(1), n), Le(n, IntLit(4))))
+		return fc.intRes(n)
+	})
+	reg("unicode/utf16.Decode", allocEff(), func(fc *FnCtx, cc *ssa.CallCommon, args []Value, pos token.Pos, res ssa.Value) Value {
+		n := fc.freshConst("u16declen", SInt)
+		fc.assume(And(Le(IntLit(0), n), Le(n, args[0].Len())))
+		st := fc.cur
+		obj := fc.define(fc.freshName("obj_runes"), st.next)
+		st.next = fc.define(fc.freshName("next"), Add(st.next, IntLit(1)))
+		st.heap[SBV(32)] = Store(st.heap[SBV(32)], obj, fc.freshConst("runes", SArr(SInt, SBV(32))))
+		fc.commitHeaps()
+		return SliceV(obj, IntLit(0), n, n)
+	})
+	reg("unicode/utf16.Encode", allocEff(), func(fc *FnCtx, cc *ssa.CallCommon, args []Value, pos token.Pos, res ssa.Value) Value {
+		n := fc.freshConst("u16enclen", SInt)
+		fc.assume(And(Le(args[0].Len(), n), Le(n, Mul(IntLit(2), args[0].Len()))))
+		st := fc.cur
+		obj := fc.define(fc.freshName("obj_u16"), st.next)
+		st.next = fc.define(fc.freshName("next"), Add(st.next, IntLit(1)))
+		st.heap[SBV(16)] = Store(st.heap[SBV(16)], obj, fc.freshConst("u16s", SArr(SInt, SBV(16))))
+		fc.commitHeaps()
+		return SliceV(obj, IntLit(0), n, n)
+	})
+	reg("sort.SliceIsSorted", pureEff(), func(fc *FnCtx, cc *ssa.CallCommon, args []Value, pos token.Pos, res ssa.Value) Value {
+		return Leaf(fc.freshConst("issorted", SBool))
+	})
+	sortHavoc := func(fc *FnCtx, cc *ssa.CallCommon, args []Value, pos token.Pos, res ssa.Value) Value {
+		// elements are permuted in place: contents of the backing array become unknown
+		src := fc.ifaceSrc[cc.Args[0]]
+		var sv Value
+		var et types.Type
+		if src != nil {
+			sv = fc.val(src)
+			if st, ok := src.Type().Underlying().(*types.Slice); ok {
+				et = st.Elem()
+			}
+		} else if args[0].K == KSlice {
+			sv = args[0]
+			if st, ok := cc.Args[0].Type().Underlying().(*types.Slice); ok {
+				et = st.Elem()
+			}
+		}
+		if sv.K != KSlice || et == nil {
+			fc.havocAll("sort")
+			return Value{K: KTuple}
+		}
+		sorts := map[Sort]bool{}
+		fc.sortsOfType(et, sorts)
+		st := fc.cur
+		for _, hs := range heapSorts {
+			if sorts[hs] {
+				st.heap[hs] = Store(st.heap[hs], sv.Obj(), fc.freshConst("sorted", SArr(SInt, hs)))
+			}
+		}
+		fc.commitHeaps()
+		return Value{K: KTuple}
+	}
+	reg("sort.Slice", allocEff(), sortHavoc)
+	reg("sort.Ints", allocEff(), sortHavoc)
+	reg("runtime.GOMAXPROCS", pureEff(), func(fc *FnCtx, cc *ssa.CallCommon, args []Value, pos token.Pos, res ssa.Value) Value {
+		n := fc.freshConst("gomaxprocs", SInt)
+		fc.assume(And(Ge(n, IntLit(1)), Le(n, IntLit(1<<20))))
+		return fc.intRes(n)
+	})
+}
+
+func (e *Engine) typeIDByName(name string) int64 {
+	if id, ok := e.typeIDs[name]; ok {
+		return id
+	}
+	id := int64(len(e.typeIDs) + 1)
+	e.typeIDs[name] = id
+	return id
+}
